@@ -673,6 +673,12 @@ func c19Items(e *c19Env, r *c19Route, lim c19Limits, thorough bool) []c19Item {
 			big := fmt.Sprintf(`[{"id":"nbdim","vector":%s}]`, c19Vec(int(lim.MaxDim)+1))
 			add(c19Item{Kind: "limit-dim-over", Field: f.Name + "[].vector", Body: body(tmpl.set(f.Name, big)), BatchDim: true,
 				Want4xx: fmt.Sprintf("batch item with a vector of dimension %d exceeds the published limit %d", lim.MaxDim+1, lim.MaxDim)})
+			// the oversized vector is not the first item (behind a regular one, behind one without a vector)
+			for tag, first := range map[string]string{"after-regular": fmt.Sprintf(`{"id":"nbok","vector":%s}`, c19Vec(c19Dim)), "after-empty": `{"id":"nbok","vector":[]}`} {
+				later := fmt.Sprintf(`[%s,{"id":"nbdim2","vector":%s}]`, first, c19Vec(int(lim.MaxDim)+1))
+				add(c19Item{Kind: "limit-dim-over-" + tag, Field: f.Name + "[1].vector", Body: body(tmpl.set(f.Name, later)), BatchDim: true,
+					Want4xx: fmt.Sprintf("batch whose second item has a vector of dimension %d exceeds the published limit %d", lim.MaxDim+1, lim.MaxDim)})
+			}
 		}
 	}
 	return out
